@@ -261,6 +261,24 @@ fn main() {
         std::fs::write(&args[2], format!("{}\n{}\n", body.len(), body.join("\n"))).unwrap();
         return;
     }
+    if mode == "execdump" {
+        // vh execdump args... : records who it is ($VH_DUMP: pid, argv, cwd, VP_* environment, uid, gid), exits with $VH_EXIT
+        use std::os::unix::ffi::OsStrExt;
+        let argv: Vec<String> = std::env::args_os().skip(2).map(|a| hex(a.as_bytes())).collect();
+        let envs: serde_json::Map<String, J> = std::env::vars_os()
+            .filter(|(k, _)| k.to_string_lossy().starts_with("VP_"))
+            .map(|(k, v)| (k.to_string_lossy().into_owned(), json!(hex(v.as_bytes()))))
+            .collect();
+        let rec = json!({"pid": std::process::id(), "argv": argv,
+                         "cwd": std::env::current_dir().map(|p| p.to_string_lossy().into_owned()).unwrap_or_default(),
+                         "env": envs, "uid": unsafe { libc::getuid() }, "gid": unsafe { libc::getgid() },
+                         "euid": unsafe { libc::geteuid() }});
+        if let Ok(f) = std::env::var("VH_DUMP") {
+            let _ = std::fs::write(f, rec.to_string());
+        }
+        let code: i32 = std::env::var("VH_EXIT").ok().and_then(|x| x.parse().ok()).unwrap_or(0);
+        std::process::exit(code);
+    }
     if mode == "probe" {
         println!("{}", run_probe());
         return;
